@@ -119,13 +119,21 @@ fn name_members(t: &mut Tape, n: &mut Node, order: &[usize], s_names: &[String],
         n.slots = keyed.into_iter().enumerate().map(|(p, (_, (_, slot)))| (format!("{}", p), slot)).collect();
     } else {
         let mut ci = 0;
+        let mut first_child: Option<String> = None;
         for (name, slot) in n.slots.iter_mut() {
             match slot {
                 Slot::Leaf(id) => {
                     *name = if s_named && !t.chance(1, 3) { s_names[*id].clone() } else { format!("m{}", id) };
                 }
                 Slot::Child(c) => {
-                    *name = format!("k{}{}", c.ty.trim_start_matches('N'), ["", "x"][ci % 2]);
+                    // sibling members whose names share a string prefix (line / line2): paths must be compared by component
+                    *name = match &first_child {
+                        Some(f) if t.coin() => format!("{}b{}", f, ci),
+                        _ => format!("k{}{}", c.ty.trim_start_matches('N'), ["", "x"][ci % 2]),
+                    };
+                    if first_child.is_none() {
+                        first_child = Some(name.clone());
+                    }
                     ci += 1;
                 }
                 Slot::Ghost(_) => {}
